@@ -235,6 +235,31 @@ def run_big(case):
         probe.big_vs_windows("C11.vector", m + "(array, array)", lambda a, b: f(a, b), [zlo, z], win)
     for m1 in (ONE if case.get("first") else [ONE[int(rng.integers(0, len(ONE)))]]):
         probe.big_vs_windows("C11.vector", m1 + "(array)", getattr(c, m1), [np.maximum(z, 1e-3)], win)
+    # several threads making array-valued calls on this one object at the same time: each must get what the same call
+    # gives when made alone (the compiled loops may release the interpreter lock; any scratch they share must not)
+    import threading
+    m = TWO[int(rng.integers(0, len(TWO)))]
+    f = getattr(c, m)
+    chunks = [np.maximum(z[i * 200000:(i + 1) * 200000], 0.05) for i in range(min(6, n // 200000))]
+    alone = [np.asarray(f(0.02, ch)).copy() for ch in chunks]
+    got = [None] * len(chunks)
+
+    def work(i):
+        out = None
+        for _ in range(4):
+            out = np.asarray(f(0.02, chunks[i]))
+        got[i] = out
+    ths = [threading.Thread(target=work, args=(i,)) for i in range(len(chunks))]
+    for t in ths:
+        t.start()
+    for t in ths:
+        t.join()
+    badth = [i for i in range(len(chunks)) if got[i] is None or got[i].shape != alone[i].shape or got[i].tobytes() != alone[i].tobytes()]
+    if badth:
+        COL.violation("C11.vector", "%s(scalar, array) called from %d threads on one Cosmo object: %d of the results differ from the same call made alone" % (
+            m, len(chunks), len(badth)), {"method": m, "threads": len(chunks)}, key="threads-shared-object")
+    elif chunks:
+        COL.ok("C11.vector", ("threads", m, len(chunks)))
 
 
 def run_case(case):
